@@ -4,11 +4,12 @@ from props.C12 import sweep_slices
 LEVEL = 'model_checking'
 EXPLANATION = ('Spans are right if preprocessing preserves length and every unit that creates a result keeps 0 <= start, length >= 1, '
                'start+length <= len(source), text == slice. Preprocessing is checked by CrossHair on a symbolic string (all code points); the span '
-               'producing units (number/sequence sweeps, percentage position map, merge_all_tokens, the six Model.parse assemblers) run under symx on '
-               'symbolic match/result intervals obeying the regex contract.')
+               'producing units (number/sequence sweeps, percentage position map, unit extractor, merge_all_tokens, modifier widening and restore, the six Model.parse assemblers) run under symx on '
+               'symbolic match/result intervals obeying the regex contract. At API level about 32 000 queries assembled from pools go through 17 real recognisers (en-us, zh-cn; thorough also '
+               'es, fr, pt, de) with all real regexes (small-scope enumeration through the solver); call-site monitors attribute anomalies of recorded findings (F36, F37).')
 ASSUMPTIONS = ['regex finditer contract for the stubbed match intervals', 'percentage patterns never start/end strictly inside a number token',
                'bounded source length and match count per obligation']
-OUTSIDE = ['which intervals the real patterns produce on a sentence', 'phone prefix re-spanning (not built)', 'CJK-specific extractors', 'strings longer than 2 characters for the symbolic preprocess check']
+OUTSIDE = ['which intervals the real patterns produce on a sentence outside the composed pools', 'queries in which ChineseMergedExtractor.add_mod changed a result (region of F37)', 'strings longer than 2 characters for the symbolic preprocess check']
 S = 'harness.spans:'
 MODELS = ['number', 'unit', 'sequence', 'phone', 'datetime', 'choice']
 
@@ -70,12 +71,14 @@ def obligations(tier):
     for k in kinds:
         cs += [{'kind': k, 'pad': a} for a in range(10)] if k in heavy else [{'kind': k}]
     cs += [{'kind': k, 'culture': 'zh-cn'} for k in ('number', 'percentage', 'currency', 'dimension', 'datetime')]
+    if tier == 'thorough':
+        cs += [{'kind': k, 'culture': c} for c in ('es-es', 'fr-fr', 'pt-br', 'de-de') for k in ('number', 'currency', 'dimension', 'datetime') if not (c == 'de-de' and k == 'dimension')]
     obs.append(Ob('O1.9-composed', 'sx', 'harness.compose:h_compose', twin='harness.compose:t_compose', slices=cs, timeout=max(t, 300),
                   descr='API level, all real regexes: queries assembled from pools (pad x prefix x body x tail, incl. dialing prefixes, currency prefixes with a gap, a case-expanding '
                         'code point, CJK and full-width forms, leading blanks) through 12 English recognisers and 5 zh-cn ones (the CJK extractors): 0 <= start <= end < len, text = normalised slice; '
                         'entities pairwise disjoint. Queries in which the Chinese merged extractor widened a result by a modifier are the region of F37 (attributed by a monitor); overlaps of the zh-cn '
                         'unit models across their two extractors are attributed to F36',
-                  bounds='10 pads x 3..7 prefixes x 4..10 bodies x 7 tails per recogniser (about 32 000 queries), enumerated through the solver; en-us and zh-cn',
+                  bounds='10 pads x 3..7 prefixes x 4..10 bodies x 7 tails per recogniser (about 32 000 queries), enumerated through the solver; en-us and zh-cn (thorough: also es-es, fr-fr, pt-br, de-de pools)',
                   encodes=['recognizers_sequence.sequence.extractors:BasePhoneNumberExtractor.extract', 'recognizers_sequence.sequence.extractors:SequenceExtractor.extract',
                            'recognizers_number_with_unit.number_with_unit.extractors:NumberWithUnitExtractor.extract', 'recognizers_date_time.date_time.base_merged:BaseMergedExtractor.extract',
                            'recognizers_number.number.extractors:BaseNumberExtractor.extract', 'recognizers_text.utilities:QueryProcessor.preprocess'],
